@@ -41,9 +41,17 @@ TRead0 ==
 TReadErr ==
   /\ IsEvent("re") /\ c.pc \in ReadPcs /\ sc.fault.k = "rerr" /\ sc.fault.at = c.inRead
   /\ c' = Run(sc, ReadFails(sc, c)) /\ UNCHANGED sc
+\* How the outbound bytes are grouped into transport calls is not pinned down by any property (one vectored write may
+\* carry the end of one logical write and the start of the next, as long as nothing but internal steps lies between
+\* them): a logged write of k bytes is matched against the outbound byte STREAM, across consecutive logical writes.
+RECURSIVE WriteK(_, _)
+WriteK(cc, k) ==
+  IF k = 0 THEN [ok |-> TRUE, c |-> cc]
+  ELSE IF cc.pc \notin WritePcs \/ (sc.fault.k \in {"werr", "wzero"} /\ sc.fault.at = cc.outw) THEN [ok |-> FALSE, c |-> cc]
+  ELSE LET k1 == Min2(k, cc.wrem) IN WriteK(Run(sc, AfterWrite(sc, cc, k1)), k - k1)
 TWrite ==
   /\ IsEvent("w") /\ c.pc \in WritePcs
-  /\ LET k == TLog[l].k IN k >= 1 /\ k <= c.wrem /\ c' = Run(sc, AfterWrite(sc, c, k))
+  /\ LET k == TLog[l].k  r == WriteK(c, k) IN k >= 1 /\ r.ok /\ c' = r.c
   /\ UNCHANGED sc
 TWriteErr ==
   /\ IsEvent("we") /\ c.pc \in WritePcs /\ sc.fault.k \in {"werr", "wzero"} /\ sc.fault.at = c.outw
